@@ -330,7 +330,9 @@ pub fn run(cx: &mut Ctx) {
                 both(cx, "Kdf<Stack,Stack>", &kdf, &|x, y| x.derive_subkey_to_vec(7).ok() == y.derive_subkey_to_vec(7).ok() && x.clone().into_parts() == y.clone().into_parts(), &d);
                 let (k2, c2) = kdf.clone().into_parts();
                 expect(cx, "C16|Kdf|from_parts(into_parts)_not_equal", Kdf::from_parts(k2, c2).derive_subkey_to_vec(1).ok() == kdf.derive_subkey_to_vec(1).ok(), d);
-                let cfg = Config::interactive().with_opslimit(1).with_memlimit(8192).with_hash_length(16 + len % 100).with_salt_length(8 + len % 50);
+                // memory limits that are not a whole number of KiB as well (the string carries KiB)
+                let memlimit = [8192usize, 8193, 9000, 10_000, 16_383, 65_535][len % 6];
+                let cfg = Config::interactive().with_opslimit(1 + (len % 3) as u64).with_memlimit(memlimit).with_hash_length(16 + len % 100).with_salt_length(8 + len % 50);
                 let ph: PwHash<Vec<u8>, Vec<u8>> = PwHash::hash(&msg, cfg).unwrap();
                 both(cx, "PwHash<Vec,Vec>", &ph, &|x, y| x.clone().into_parts().0 == y.clone().into_parts().0 && x.clone().into_parts().1 == y.clone().into_parts().1 && x.to_string() == y.to_string() && y.verify(&msg).is_ok(), &d);
                 let (h, s, c) = ph.clone().into_parts();
